@@ -1,0 +1,9 @@
+//go:build verif
+
+package aghrenameio
+
+// Contracts for govc (see /verif/DESIGN.md).  This file is comment-only and is compiled only with -tags=verif.
+
+// ---- C14: the package offers the atomic (write-temporary-then-rename) writer and nothing else: no call in it writes a
+// file in place.  Any such call is an uncovered site of the sweep. ----
+//@ sweep C14 os.WriteFile, os.Create, os.OpenFile, os.Truncate
